@@ -15,7 +15,8 @@ RULE = ("wallet sources {mnemonic with long/Unicode/short passphrases, entropy h
         "thorough 2). Oracle: EVERY key and value at every depth of the filtered structure / parsed CLI output is decoded with an "
         "independent Base58Check decoder (no WIF payload, no private extended key) and compared with every secret leaf of the unfiltered "
         "output (equality; containment for secrets >= 16 chars; the raw CLI text is scanned too); every path/address/SEC/pub of "
-        "BIP44/49/84 must be present, identical and in order. non-trivial = output walked and compared; distinct by construction")
+        "BIP44/49/84 must be present, identical and in order. non-trivial = output walked and compared; distinct by construction"
+        "; intermediate-corner classes (vf/corners.py): first-row private key of each section (every byte position 00/ff, every first/last byte value, over 2,600 accounts) and account extended private keys whose text contains a field name of the schema")
 
 LONG_PW = "correct horse battery staple - distinctive passphrase 8731"
 SOURCES = [
